@@ -277,7 +277,7 @@ func mapRanges(ff *factFile) []mapRange {
 				if !names[last] {
 					return true
 				}
-				mr := mapRange{file: rel, fn: fd.Name.Name, expr: exprStr(ff.fset, rs.X)}
+				mr := mapRange{file: rel, fn: fd.Name.Name, expr: last} // the ranged map by its field / variable name
 				// sort call after the loop in the same function
 				ast.Inspect(fd.Body, func(m ast.Node) bool {
 					if ce, ok := m.(*ast.CallExpr); ok && ce.Pos() > rs.End() {
@@ -364,6 +364,49 @@ func switchKinds(ff *factFile, rel, fn string, tag string) [][]string {
 	return out
 }
 
+// switchKindsAnywhere finds, in any function of the file except those named in skip, the first switch on
+// an option type whose clauses mention `mention`; `default` clauses are dropped. (A refactoring that
+// moves the switch into a helper keeps the fact.)
+func switchKindsAnywhere(ff *factFile, rel string, skip map[string]bool, mention string) [][]string {
+	var out [][]string
+	for _, d := range ff.files[rel].Decls {
+		fd, ok := d.(*ast.FuncDecl)
+		if !ok || fd.Body == nil || skip[fd.Name.Name] || len(out) > 0 {
+			continue
+		}
+		ast.Inspect(fd.Body, func(n ast.Node) bool {
+			sw, ok := n.(*ast.SwitchStmt)
+			if !ok || sw.Tag == nil || len(out) > 0 {
+				return len(out) == 0
+			}
+			if !strings.HasSuffix(strings.ToLower(exprStr(ff.fset, sw.Tag)), "opttype") {
+				return true
+			}
+			var cl [][]string
+			found := false
+			for _, st := range sw.Body.List {
+				cc := st.(*ast.CaseClause)
+				if cc.List == nil {
+					continue
+				}
+				names := caseNames(ff.fset, cc)
+				for _, nm := range names {
+					if nm == mention {
+						found = true
+					}
+				}
+				cl = append(cl, names)
+			}
+			if found {
+				out = cl
+				return false
+			}
+			return true
+		})
+	}
+	return out
+}
+
 func leanStrListList(l [][]string) string {
 	out := make([]string, len(l))
 	for i, s := range l {
@@ -387,7 +430,9 @@ func dagFacts(ff *factFile) (doneCap, semCap string, statusWrites []string, errA
 				for i, l := range x.Lhs {
 					ls := exprStr(ff.fset, l)
 					if strings.HasSuffix(ls, ".status") && i < len(x.Rhs) {
-						statusWrites = append(statusWrites, fd.Name.Name+": "+ls+" = "+exprStr(ff.fset, x.Rhs[i]))
+						// (function, status constant): which function moves a vertex to which status - the
+						// spelling of the left-hand side (variable names) is irrelevant
+						statusWrites = append(statusWrites, fd.Name.Name+": "+exprStr(ff.fset, x.Rhs[i]))
 					}
 					if ls == "g.errs.Errors" && !seenAppend[fd.Name.Name] {
 						seenAppend[fd.Name.Name] = true
@@ -444,6 +489,14 @@ func dagFacts(ff *factFile) (doneCap, semCap string, statusWrites []string, errA
 			return true
 		})
 	}
+	sort.Strings(statusWrites)
+	uniq := statusWrites[:0]
+	for i, w := range statusWrites {
+		if i == 0 || w != statusWrites[i-1] {
+			uniq = append(uniq, w)
+		}
+	}
+	statusWrites = uniq
 	return
 }
 
@@ -497,8 +550,8 @@ func runFactgen(repo, outPath string) int {
 	})
 	b.WriteString("def isOptionRegex : String := " + leanStr(rx) + "\n")
 	rx2 := "?"
-	ast.Inspect(findFunc(ff.files["user.go"], "Parse"), func(n ast.Node) bool {
-		if ce, ok := n.(*ast.CallExpr); ok && exprStr(ff.fset, ce.Fun) == "regexp.MustCompile" {
+	ast.Inspect(ff.files["user.go"], func(n ast.Node) bool {
+		if ce, ok := n.(*ast.CallExpr); ok && exprStr(ff.fset, ce.Fun) == "regexp.MustCompile" && rx2 == "?" {
 			if bl, ok := ce.Args[0].(*ast.BasicLit); ok {
 				rx2, _ = strconv.Unquote(bl.Value)
 			}
@@ -524,9 +577,9 @@ func runFactgen(repo, outPath string) int {
 	b.WriteString("]\n\n")
 	// switches on option kinds
 	b.WriteString("/-- case clauses of the option-type switch in help.Synopsis -/\n")
-	b.WriteString("def synopsisSwitch : List (List String) := " + leanStrListList(switchKinds(ff, "internal/help/help.go", "Synopsis", "OptType")) + "\n")
+	b.WriteString("def synopsisSwitch : List (List String) := " + leanStrListList(switchKindsAnywhere(ff, "internal/help/help.go", map[string]bool{}, "BoolType")) + "\n")
 	b.WriteString("/-- case clauses of the lookahead switch in the greedy loop of parseCLIArgs -/\n")
-	b.WriteString("def greedySwitch : List (List String) := " + leanStrListList(switchKinds(ff, "api.go", "parseCLIArgs", "cOpt.OptType")) + "\n")
+	b.WriteString("def greedySwitch : List (List String) := " + leanStrListList(switchKindsAnywhere(ff, "api.go", map[string]bool{"AddChildOption": true}, "IntRepeatType")) + "\n")
 	b.WriteString("/-- case clauses of the switch in Option.Save (with arguments) -/\n")
 	sk := switchKinds(ff, "internal/option/option.go", "Save", "OptType")
 	b.WriteString("def saveSwitch : List (List String) := " + leanStrListList(sk) + "\n")
